@@ -163,7 +163,13 @@ def _coefficients(ctx):
         return (Rat.atom(f"{nm}E"), Rat.atom(f"{nm}H"))
 
     stub_repo_calls(it, {f"{PML}._compute_pml_profile": profile, "fdtdx.objects.object.SimulationObject.place_on_grid": lambda it_, a, k: a[0].replace(_config=(a[2] if len(a) > 2 else k.get("config"))), f"{PML}._physical_thickness": lambda it_, a, k: Rat.atom("thick")})
-    it.ext_handlers["np.nan_to_num"] = lambda it_, a, k: a[0]
+    guards = []
+
+    def nan_to_num(it_, a, k):
+        guards.append(to_rat(k.get("nan", 0)))
+        return apply_fn("nan_to_num", to_rat(a[0]))  # kept visible: the 0/0 guard is part of the coefficient's definition
+
+    it.ext_handlers["np.nan_to_num"] = nan_to_num
     cfg = sc.config(dtype=Unknown("dtype"))
     attrs = dict(name="pml", axis=0, direction="-", sigma_start=Rat.atom("s0"), sigma_end=Rat.atom("s1"), sigma_order=Rat.atom("so"), kappa_start=Rat.atom("k0"), kappa_end=Rat.atom("k1"), kappa_order=Rat.atom("ko"), alpha_start=Rat.atom("a0"), alpha_end=Rat.atom("a1"), alpha_order=Rat.atom("ao"))
     try:
@@ -182,6 +188,11 @@ def _coefficients(ctx):
         b_norm = b_got.subs({x: apply_fn("exp", x[2]) - 1 for x in b_got.atoms() if isinstance(x, tuple) and x[:2] == ("call", "expm1")})
         ctx.ob("R12.3", f"{PML}.place_on_grid:b_{f}", b_norm.equals(b_want), "b = exp(-dt/eps0 (sigma/kappa + alpha)) from the profile of the same staggering", b_norm.fmt()[:200], b_want.fmt()[:200])
         a_got = to_rat(out.attrs[f"pml_a_{f}"])
+        g_atoms = [x for x in a_got.atoms() if isinstance(x, tuple) and x[:2] == ("call", "nan_to_num")]
+        guarded = len(g_atoms) == 1 and a_got.equals(Rat.atom(g_atoms[0]))
+        ctx.ob("R12.3", f"{PML}.place_on_grid:a_{f}:guard", guarded and all(g.is_zero() for g in guards), "the quotient is wrapped in nan_to_num(..., nan=0): where sigma + alpha kappa = 0 (sigma_start = 0 at the inner face with alpha = 0, the classic setting) the coefficient is 0 instead of 0/0", a_got.fmt()[:160], "nan_to_num((b - 1) sigma / ((sigma + alpha kappa) kappa), nan=0)")
+        if guarded:
+            a_got = to_rat(g_atoms[0][2])
         a_norm = a_got.subs({x: apply_fn("exp", x[2]) - 1 for x in a_got.atoms() if isinstance(x, tuple) and x[:2] == ("call", "expm1")})
         a_want = (b_want - 1) * sg / (sg + al * kp) / kp
         ctx.ob("R12.3", f"{PML}.place_on_grid:a_{f}", a_norm.equals(a_want), "a = (b - 1) sigma / ((sigma + alpha kappa) kappa): non-positive for sigma, alpha >= 0, kappa >= 1 (b <= 1), i.e. a contractive memory", a_norm.fmt()[:200], a_want.fmt()[:200])
